@@ -54,7 +54,7 @@ def gen_structured(rng: random.Random):
         if rng.random() < 0.3 and len(xs) == 2:
             ctx.append({"c": {"x": 1.0, "y": 1.0}, "k": float(rng.randint(0, 4))})
         return [t], ctx + G.rtl(rng, KEEP, rng.randint(0, 1)), xs
-    if m < 0.56:   # tactic 3: one context row coupling the eliminated variables in the term's proportion (or a wrong one)
+    if m < 0.55:   # tactic 3: one context row coupling the eliminated variables in the term's proportion (or a wrong one)
         c1, c2 = rng.choice([(1.0, 2.0), (2.0, 1.0), (1.0, 3.0), (3.0, 2.0), (1.0, 0.5), (2.0, 2.0)])
         sg = s()
         t = {"c": {"a": s() * k(), "x": sg * c1, "y": sg * c2}, "k": float(rng.randint(-3, 6))}
@@ -71,18 +71,31 @@ def gen_structured(rng: random.Random):
         if rng.random() < 0.3:
             ctx += G.rtl(rng, KEEP, 1)
         return [t], ctx, ["x", "y"]
+    if m < 0.6:    # Kaykobad edge: three eliminated variables, the column of the middle one is loaded by the first AND the third row
+        sg = s()
+        o1, o3 = rng.choice([(0.6, 0.6), (0.5, 0.5), (0.75, 0.5), (0.5, 0.25), (0.4, 0.7), (0.25, 0.25)])
+        t = {"c": {"x": sg, "y": sg, "z": sg, "a": s() * k()}, "k": float(rng.randint(-3, 6))}
+        d = lambda: float(rng.choice([1, 1, 2]))  # noqa: E731
+        d1, d2, d3 = d(), d(), d()
+        rows = [{"c": {"x": sg * d1, "y": sg * o1 * d1, "b": s() * k()}, "k": float(rng.randint(-3, 6))},
+                {"c": {"y": sg * d2, "c": s() * k()}, "k": float(rng.randint(-3, 6))},
+                {"c": {"z": sg * d3, "y": sg * o3 * d3, "b": s() * k()}, "k": float(rng.randint(-3, 6))}]
+        if rng.random() < 0.5:
+            rows = [G.scale_term(r, -1.0) for r in rows]   # the relaxing direction
+        return [t], rows, ["x", "y", "z"]
     if m < 0.7:    # Kaykobad-style
-        n = rng.randint(1, 3)
+        n = rng.choice([1, 2, 2, 3, 3, 3])
         xs = ELIM[:n]
         refine = None
         q = {v: k() * s() for v in xs}
         t = {"c": dict(q, a=s() * k()), "k": float(rng.randint(-3, 6))}
         ctx = []
         for v in xs:
-            row = {v: float(rng.choice([2, 3, 4])) * (1 if q[v] > 0 else -1)}
+            row = {v: float(rng.choice([1, 1, 2, 3, 4])) * (1 if q[v] > 0 else -1)}
             for w in xs:
                 if w != v and rng.random() < 0.6:
-                    row[w] = float(rng.choice([0.5, 1, 0.25])) * (1 if q[w] > 0 else -1)
+                    # off-diagonals up to the edge of (generalised) diagonal dominance: the column sums decide
+                    row[w] = float(rng.choice([0.5, 1, 0.25, 0.6, 0.75])) * (1 if q[w] > 0 else -1)
             row[rng.choice(KEEP)] = s() * k()
             ctx.append({"c": row, "k": float(rng.randint(-3, 6))})
         if rng.random() < 0.5:
